@@ -18,6 +18,25 @@ ASSUMPTIONS = ['the guesser level is computed on the grammar dictionary returned
 NSHARDS = 32
 POOL = ['a', 'ab', 'aab', 'abab', 'ab1', '1ab1', 'bbbb', 'aaaaa', 'ab1ab1', 'b1', 'abba', 'a1a1a', 'a' * 21, 'ab' * 11, 'a b', 'ab ab', ' ab ']
 
+# one continuation seen once after a context seen > e^10 / 2 times: the transition is smoothed to the cap (level 10), so strings sit exactly at
+# level 10 x transitions and every level above that must be empty for them
+K10 = 45000
+CAPPED = [['love'] * K10 + ['lovx'], ['ab'] * K10 + ['aa'], ['love'] * K10 + ['lovx', 'lovey', 'ilove'], ['aba'] * K10 + ['abb', 'ab', 'ba']]
+
+
+def rle(lines):
+    out = []
+    for l in lines:
+        if out and out[-1][0] == l:
+            out[-1][1] += 1
+        else:
+            out.append([l, 1])
+    return out
+
+
+def unrle(runs):
+    return [w for w, n in runs for _ in range(n)]
+
 
 def trainings(tier):
     maxk = 3 if tier == 'thorough' else 2
@@ -34,6 +53,9 @@ def trainings(tier):
         for ng in ngrams:
             for al in (2, 3, 10):
                 yield l, dict(ngram=ng, alphabet_size=al, coverage=0.5)
+    for l in CAPPED:
+        for ng in (2, 3, 4):
+            yield l, dict(ngram=ng, alphabet_size=10, coverage=0.5)
     if tier == 'thorough':
         # every pair of strings over {a,b} of length 4..6 (dead ends, shared prefixes, cycles), alphabet large enough for both letters
         words = [''.join(t) for n in (4, 5, 6) for t in itertools.product('ab', repeat=n)]
@@ -91,7 +113,7 @@ def check_training(wd, lines, opts, acc, want_keyspace=False):
     # cross-check the reference guesser semantics against the real generator on the low levels
     emitted = {}
     shared = O.new_optimizer()      # one optimizer for all levels of a run, as PcfgGrammar uses it
-    for L in range(0, 7):
+    for L in range(0, 14 if len(lines) > 1000 else 7):      # the lists with a level-10 transition are followed past level 10
         try:
             outl, capped = O.emitted_at(g, L, cap=20000, optimizer=shared)
         except Exception as e:
@@ -110,13 +132,12 @@ def check_training(wd, lines, opts, acc, want_keyspace=False):
             fails.append(('generator', 'string %r has level %d but MarkovCracker does not emit it there' % (s, gl[0])))
             break
     # per-level password counts
-    tl = Counter(fel(cap['trainer'], s) for s in lines)
     rows = P.read_list(os.path.join(base, 'Omen', 'omen_pws_per_level.txt'))
     got = Counter({int(v): int(p) for v, p in rows})
     mine = Counter()
-    for s in lines:
+    for s, n in Counter(lines).items():
         gl = gm.levels_of(s)
-        mine[gl[0] if len(gl) == 1 else -1] += 1
+        mine[gl[0] if len(gl) == 1 else -1] += n
     if got != mine:
         fails.append(('pws_per_level', 'omen_pws_per_level.txt %r, levels at which the guesser generates the training passwords %r' % (dict(got), dict(mine))))
     info = {'base': base, 'cap': cap, 'g': g, 'gm': gm, 'emitted': emitted, 'nontrivial': nontriv}
@@ -138,9 +159,9 @@ def run_shard(shard, tier, acc):
         if info:
             acc.nontrivial += info['nontrivial']
         for sig, msg in fails[:3]:
-            acc.fail({'lines': lines, 'opts': opts}, '%r ngram=%d alphabet=%d: %s' % ([l[:8] for l in lines], opts['ngram'], opts['alphabet_size'], msg), sig)
+            acc.fail({'runs': rle(lines), 'opts': opts}, '%r ngram=%d alphabet=%d: %s' % ([(w[:8], n) if n > 1 else w[:8] for w, n in rle(lines)][:12], opts['ngram'], opts['alphabet_size'], msg), sig)
         if idx % 211 == si and info:
-            acc.sample({'training_list': [l[:24] for l in lines], 'opts': opts, 'levels_emitted_sizes': {L: len(v) for L, v in info['emitted'].items()}}, cap=1)
+            acc.sample({'training_list_runs': [[w[:24], n] for w, n in rle(lines)][:12], 'opts': opts, 'levels_emitted_sizes': {L: len(v) for L, v in info['emitted'].items()}}, cap=1)
     tree.rmtree(wd)
 
 
@@ -148,6 +169,6 @@ def replay(case):
     from ..runner import Acc
     tree.use()
     wd = tree.mkdtemp('pcfgmc-c11r-')
-    fails, info = check_training(wd, case['lines'], case['opts'], Acc())
+    fails, info = check_training(wd, unrle(case['runs']) if 'runs' in case else case['lines'], case['opts'], Acc())
     tree.rmtree(wd)
     return fails[0][1] if fails else None
